@@ -36,6 +36,11 @@ def assocSet {κ β : Type} [DecidableEq κ] : List (κ × β) → κ → β →
   | [], x, v => [(x, v)]
   | (k, w) :: rest, x, v => if k = x then (k, v) :: rest else (k, w) :: assocSet rest x v
 
+/-- optional write: `none` leaves the dict alone (a `continue` in the loop) -/
+def assocUpd {κ β : Type} [DecidableEq κ] (d : List (κ × β)) (k : κ) : Option β → List (κ × β)
+  | none => d
+  | some v => assocSet d k v
+
 def setAdd (s : List String) (x : String) : List String := if s.contains x then s else s ++ [x]
 
 /-! ### variables.py -/
@@ -145,9 +150,7 @@ def merge2Upd (b : BState) (lw : List String) (x : String) (w : Var) (cur : Opti
 
 def merge2Step (b : BState) (lw : List String) (acc : List (String × Var)) (p : String × Var) :
     List (String × Var) :=
-  match merge2Upd b lw p.1 p.2 (assocGet acc p.1) with
-  | none => acc
-  | some nv => assocSet acc p.1 nv
+  assocUpd acc p.1 (merge2Upd b lw p.1 p.2 (assocGet acc p.1))
 
 def BState.mergeInto (a : BState) : Option BState → BState
   | none => a
@@ -169,6 +172,17 @@ def BState.vals (ρ : Nat → Bool) (s : BState) (x : String) : List Val :=
   match assocGet s.locals x with
   | none => []
   | some v => (v.bindings.filter (s.effective ρ x)).map (·.value)
+
+/-- Representation invariant of states built through the state's own operations:
+unique keys (a dict), `lwbc ⊆ keys`, pairwise distinct values per variable, and — the semantic
+part — for a local that does *not* carry the block condition implicitly, every binding's own
+condition already implies the block's condition. -/
+structure Inv (s : BState) : Prop where
+  keysNodup : s.keys.Nodup
+  lwbcKeys : ∀ x ∈ s.lwbc, x ∈ s.keys
+  valsNodup : ∀ x v, (x, v) ∈ s.locals → v.values.Nodup
+  implied : ∀ x v, (x, v) ∈ s.locals → x ∉ s.lwbc →
+    ∀ b ∈ v.bindings, ∀ ρ : Nat → Bool, b.cond.eval ρ = true → s.cond.eval ρ = true
 
 /-! ### operation histories (a register machine over states; also the driver's state) -/
 inductive Op where
